@@ -425,48 +425,54 @@ def r14_7(ctx):
                 a = n.args[0] if n.args else None
                 v = 10 ** 6 if a is None else _const(ctx, g, a)
                 caps.append((q, n, v))
-    defs = pat.local_defs(fn)
+    # the search itself, and the private helpers a later change may have cut it into
+    from verifkit.known_names import KNOWN
+    hosts = [fn] + [ctx.model.funcs[q] for q in sorted(seen) if q != fn.qname
+                    and ctx.model.funcs[q].name.startswith("_") and ctx.model.funcs[q].name not in KNOWN]
     sites = []
-    for n in ast.walk(fn.node):
-        if isinstance(n, ast.Call):
-            for t in inf.targets(n, ("call",)):
-                if t.qname in ("curve.Intersection.filter_distance", "curve.Intersection.filter_parameters"):
-                    ps = [a.arg for a in t.node.args.posonlyargs + t.node.args.args]
-                    tolname = ps[-1]
-                    idx = len(ps) - 1
-                    a = n.args[idx] if idx < len(n.args) else next((k.value for k in n.keywords if k.arg == tolname), None)
-                    if a is None and t.node.args.defaults:
-                        a = t.node.args.defaults[-1]
-                    sites.append((n, t.name, a))
+    for host in hosts:
+        hinf = ctx.inf(host.qname)
+        for n in ast.walk(host.node):
+            if isinstance(n, ast.Call):
+                for t in hinf.targets(n, ("call",)):
+                    if t.qname in ("curve.Intersection.filter_distance", "curve.Intersection.filter_parameters"):
+                        ps = [a.arg for a in t.node.args.posonlyargs + t.node.args.args]
+                        tolname = ps[-1]
+                        idx = len(ps) - 1
+                        a = n.args[idx] if idx < len(n.args) else next((k.value for k in n.keywords if k.arg == tolname), None)
+                        if a is None and t.node.args.defaults:
+                            a = t.node.args.defaults[-1]
+                        sites.append((n, t.name, a, host))
     if not sites:
         out.undecided(fn.qname, "no call of filter_distance / filter_parameters found", where=fn.where())
         return out
     if not caps:
-        for n, name, a in sites:
-            out.ok(fn.qname, f"{name}: parameters are not snapped to a grid", where=fn.where(n))
+        for n, name, a, host in sites:
+            out.ok(host.qname, f"{name}: parameters are not snapped to a grid", where=host.where(n))
         return out
     if any(v is None for _, _, v in caps):
         q, n, _ = next(c for c in caps if c[2] is None)
         out.undecided(q, f"denominator cap `{U(n)[:40]}` is not a constant", where=ctx.model.funcs[q].where(n))
         return out
     N = min(v for _, _, v in caps)
-    for n, name, a in sites:
+    for n, name, a, host in sites:
         tol = None
+        defs = pat.local_defs(host)
         if a is not None:
-            tol = _const(ctx, fn, a)
+            tol = _const(ctx, host, a)
             if tol is None and isinstance(a, ast.Name):
-                vals = [_const(ctx, fn, v) for v in defs.get(a.id, []) if not isinstance(v, tuple)]
+                vals = [_const(ctx, host, v) for v in defs.get(a.id, []) if not isinstance(v, tuple)]
                 if vals and all(v is not None for v in vals):
                     tol = min(vals)
         if tol is None:
-            out.undecided(fn.qname, f"tolerance of {name} is not a constant", where=fn.where(n))
+            out.undecided(host.qname, f"tolerance of {name} is not a constant", where=host.where(n))
         elif tol * N * N < 1:
-            out.bad(fn.qname, f"{name} works with a tolerance finer than the grid the Newton parameters are snapped to",
-                    where=fn.where(n), detail=f"tolerance {tol}, parameters rounded by limit_denominator({N}): neighbouring "
+            out.bad(host.qname, f"{name} works with a tolerance finer than the grid the Newton parameters are snapped to",
+                    where=host.where(n), detail=f"tolerance {tol}, parameters rounded by limit_denominator({N}): neighbouring "
                                               f"grid values are {1 / (N * N):g} apart, so a crossing whose parameter is not on "
                                               f"the grid is never accepted / its rounded copies are never merged")
         else:
-            out.ok(fn.qname, f"{name}: tolerance {tol} >= 1/{N}^2", where=fn.where(n))
+            out.ok(host.qname, f"{name}: tolerance {tol} >= 1/{N}^2", where=host.where(n))
     return out
 
 
